@@ -1024,6 +1024,61 @@ impl IoUring {
     }
 }
 
+#[cfg(feature = "verif-hooks")]
+impl IoUring {
+    /// Verification hook, only compiled with the `verif-hooks` feature: builds an `IoUring`
+    /// over caller-supplied ring memory (counters, index array and entry arrays) instead of
+    /// memory mapped from the kernel, with arbitrary initial local head/tail.
+    /// # Safety
+    /// All pointers must be valid for the lifetime of the returned value, the entry arrays
+    /// must hold `ring_entries` (shifted by the entry-size flags) entries.
+    /// The returned value must not be dropped (`core::mem::forget` it), it owns no mappings.
+    #[expect(clippy::too_many_arguments)]
+    #[must_use]
+    pub unsafe fn verif_from_raw_parts(
+        fd: Fd,
+        flags: IoUringParamFlags,
+        sq_counters: [NonNull<AtomicU32>; 5],
+        sq_local_head: u32,
+        sq_local_tail: u32,
+        sq_ring_entries: u32,
+        sqes: NonNull<IoUringSubmissionQueueEntry>,
+        cq_counters: [NonNull<AtomicU32>; 3],
+        cq_ring_entries: u32,
+        cqes: NonNull<IoUringCompletionQueueEntry>,
+    ) -> Self {
+        Self {
+            fd,
+            flags,
+            submission_queue: UringSubmissionQueue {
+                ring_size: 1,
+                ring_ptr: 0,
+                kernel_head: sq_counters[0],
+                kernel_tail: sq_counters[1],
+                kernel_flags: sq_counters[2],
+                kernel_dropped: sq_counters[3],
+                kernel_array: sq_counters[4],
+                head: sq_local_head,
+                tail: sq_local_tail,
+                ring_mask: sq_ring_entries - 1,
+                ring_entries: sq_ring_entries,
+                entries: sqes,
+            },
+            completion_queue: UringCompletionQueue {
+                ring_size: 1,
+                ring_ptr: 0,
+                kernel_head: cq_counters[0],
+                kernel_tail: cq_counters[1],
+                kernel_flags: None,
+                kernel_overflow: cq_counters[2],
+                ring_mask: cq_ring_entries - 1,
+                ring_entries: cq_ring_entries,
+                entries: cqes,
+            },
+        }
+    }
+}
+
 impl Drop for IoUring {
     #[expect(clippy::let_underscore_untyped)]
     fn drop(&mut self) {
